@@ -475,6 +475,27 @@ def run(tier, seed):
             if c < 0.24:
                 ood = rng.choice(["zero", "zero", "neg", "dup", "bond0"])
             G, H, tags = gen_reaction(rng, big=(k % 25 == 0), ood=ood)
+            if ood is None and k % 11 == 3:
+                # history on the same graph objects: superimpose once, renumber the atom map of the
+                # SAME objects in place (an injective renaming applied to both sides, plus a swap of
+                # two numbers on one side), superimpose again - the answer must be the one for the
+                # graphs as they are at call time
+                call_impl(impl_get_its, G, H)
+                nums = sorted({d["aam"] for g_ in (G, H) for _, d in g_.nodes(data=True) if d.get("aam") is not None})
+                if len(nums) >= 2:
+                    shift = rng.randint(1, 5)
+                    ren = {a_: a_ + shift for a_ in nums}
+                    x, y = rng.sample(nums, 2)
+                    for g_ in (G, H):
+                        for _, d in g_.nodes(data=True):
+                            if d.get("aam") is not None:
+                                d["aam"] = ren[d["aam"]]
+                    for _, d in G.nodes(data=True):
+                        if d.get("aam") == ren[x]:
+                            d["aam"] = ren[y]
+                        elif d.get("aam") == ren[y]:
+                            d["aam"] = ren[x]
+                    tags = list(tags) + ["after_in_place_renumbering"]
             case = graphs_case(G, H, tags)
         cases.append(case)
         if len(cases) >= 4000:
